@@ -69,9 +69,11 @@ def one_sinusoid(rec, seedt, tier, fixed=None):
         if tier == "thorough":
             Ls += [65536, int(rng.integers(64, 5001)), int(rng.integers(64, 5001))]
         L = int(rng.choice(Ls))
+        if rng.random() < 0.02:
+            L = int(rng.choice([(1 << 20) + 7, 3 << 19, (1 << 21) + 1]))   # beyond 2^20 samples
         P = float(rng.uniform(40, 200))
         order = -1 if rng.random() < 0.7 else int(rng.choice([0, 1, 2]))
-        K = int(rng.integers(1, 5))
+        K = int(rng.integers(1, 5)) if L < (1 << 20) else 1
         phase = float(rng.uniform(0, 2 * math.pi))
     else:
         L, P, order, K, phase = fixed["L"], fixed["P"], fixed["order"], fixed["K"], fixed["phase"]
